@@ -979,6 +979,7 @@ class Shared:
     def __init__(self):
         self.asked = []        # (value of the test, node, decision)
         self.divs = []         # (numerator, denominator, node) of every evaluated scalar division
+        self.div_results = []  # the quotient object of each entry of `divs` (None when the division itself failed)
         self.calls = []        # (name, [positional values], {keyword: value}, node) of calls that stayed opaque or were hooked
         self.cells = []        # (object value, index, stored value, node) of stores into opaque objects
         self.assumed = []      # (value of the test, decision) of every test that was answered by the regime split, not by its value
@@ -1504,7 +1505,10 @@ class Interp:
         if isinstance(op, ast.Div):
             def div(x, y):
                 self.sh.divs.append((x, y, node))
-                return s_div(x, y)
+                self.sh.div_results.append(None)
+                r = s_div(x, y)
+                self.sh.div_results[-1] = r          # the quotient as an object: np.where may be seen to throw exactly this one away
+                return r
             return lift2(div, a, b)
         f = {ast.Add: s_add, ast.Sub: s_sub, ast.Mult: s_mul, ast.Pow: s_pow, ast.FloorDiv: s_floordiv, ast.Mod: s_mod}.get(type(op))
         if f is None:
